@@ -62,11 +62,14 @@ def doctype(feats, secret, rng, root):
         decls.append('<!ENTITY ival "expanded-internal-value">')
         ref = "&ival;"
     if "nested" in feats:
-        depth = rng.choice([2, 3, 5])
+        depth = rng.choice([2, 3, 5, 7, 8])
         decls.append('<!ENTITY l0 "lol">')
         for k in range(1, depth + 1):
             decls.append(f'<!ENTITY l{k} "{("&l%d;" % (k - 1)) * 8}">')
         ref = ref or f"&l{depth};"
+        if rng.random() < 0.5:
+            # used inside the DTD itself, as an attribute default: expanded (if at all) while the declarations are still being read
+            decls.append(f'<!ATTLIST {root} boom CDATA "&l{depth};">')
     if "extfile" in feats:
         decls.append(f'<!ENTITY xfile SYSTEM "file://{secret}">')
         ref = ref or "&xfile;"
@@ -277,6 +280,12 @@ def run(ctx):
     for suffix in (".dtd", ".ext.dtd"):
         with open(secret + suffix, "w") as f:
             f.write('<!ENTITY fromdtd "dtd-entity-value">')
+    # one benign parse per entry point first: what importing the parser modules allocates is not charged to a document
+    for entry in ("ovf", "vbox", "pvs", "hdd"):
+        try:
+            consume(entry, render(entry, set(), secret, rng, {"in_attr": False})[0], work, "utf-8")
+        except Exception:  # noqa: BLE001
+            pass
     tracemalloc.start()
     try:
         for st in sts:
@@ -297,6 +306,7 @@ def run(ctx):
                     old = signal.signal(signal.SIGALRM, diskcheck._on_alarm)
                     signal.alarm(20)
                     tracemalloc.reset_peak()
+                    mem0 = tracemalloc.get_traced_memory()[0]
                     verdict, res, err = "parsed", None, ""
                     try:
                         pre = None
@@ -313,13 +323,15 @@ def run(ctx):
                         signal.alarm(0)
                         signal.signal(signal.SIGALRM, old)
                         disarm()
-                    peak = tracemalloc.get_traced_memory()[1]
+                    peak = max(0, tracemalloc.get_traced_memory()[1] - mem0)     # what this one call added at its worst
                     fetched = [e for e in EVENTS]
                     a = {"entry": st["entry"], "features": "+".join(sorted(feats))}
                     det = {"entry": st["entry"], "features": sorted(feats), "style": style, "encoding": enc, "result": res, "error": err, "doc": text[-800:]}
                     if fetched:
                         ctx.violation({**a, "fail": "fetched"}, {**det, "events": fetched[:5]})
-                    if verdict == "hang" or peak > 64 << 20:
+                    # memory: a refused or parsed document costs a small multiple of its size; expansion shows as a multiple of the
+                    # expanded text (8^depth * 3 bytes)
+                    if verdict == "hang" or peak > min(64 << 20, 24 * len(text) + (6 << 20)):
                         ctx.violation({**a, "fail": "resources"}, {**det, "peak": peak, "verdict": verdict})
                     elif st["verdict"] == "refused" and verdict != "refused":
                         ctx.violation({**a, "fail": "entity-accepted"}, det)
